@@ -116,13 +116,35 @@ macro_rules! pair_checks {
                     let bytes = $crate::minicbor::to_vec(&w).map_err(|e| $crate::vcore::Fail::new("encode-error", e.to_string()))?;
                     let mut d = $crate::minicbor::Decoder::new(&bytes);
                     let r: Result<$New, _> = d.decode();
-                    $crate::checks::c10_compare("old writer -> new reader", &bytes, w.to_mval(), format!("{:?}", w), r.map(|x| (x.to_mval(), format!("{:?}", x))), d.position(), st)
+                    let plain = r.as_ref().ok().map(|x| x.to_mval());
+                    $crate::checks::c10_compare("old writer -> new reader", &bytes, w.to_mval(), format!("{:?}", w), r.map(|x| (x.to_mval(), format!("{:?}", x))), d.position(), st)?;
+                    let plain = plain.unwrap();
+                    if let Some((b2, what)) = $crate::checks::inject_unknown_fields(g, &bytes, &<$New as Derived>::desc(), &<$Old as Derived>::desc()) {
+                        let mut d = $crate::minicbor::Decoder::new(&b2);
+                        let r: Result<$New, _> = d.decode();
+                        $crate::checks::c10_same_view("old writer + unknown fields of arbitrary content -> new reader", &what, &b2, &plain, r.map(|x| (x.to_mval(), format!("{:?}", x))), d.position(), st, "unknown fields of arbitrary content")?;
+                    }
+                    let b3 = w.to_model(&mut $crate::rt::Fr::random(g)).encode();
+                    let mut d = $crate::minicbor::Decoder::new(&b3);
+                    let r: Result<$New, _> = d.decode();
+                    $crate::checks::c10_same_view("old writer, re-framed -> new reader", "wider heads / indefinite containers", &b3, &plain, r.map(|x| (x.to_mval(), format!("{:?}", x))), d.position(), st, "re-framed writer bytes")
                 } else {
                     let w: $New = Derived::draw_in(g, &ar, &mut Presence::random());
                     let bytes = $crate::minicbor::to_vec(&w).map_err(|e| $crate::vcore::Fail::new("encode-error", e.to_string()))?;
                     let mut d = $crate::minicbor::Decoder::new(&bytes);
                     let r: Result<$Old, _> = d.decode();
-                    $crate::checks::c10_compare("new writer -> old reader", &bytes, w.to_mval(), format!("{:?}", w), r.map(|x| (x.to_mval(), format!("{:?}", x))), d.position(), st)
+                    let plain = r.as_ref().ok().map(|x| x.to_mval());
+                    $crate::checks::c10_compare("new writer -> old reader", &bytes, w.to_mval(), format!("{:?}", w), r.map(|x| (x.to_mval(), format!("{:?}", x))), d.position(), st)?;
+                    let plain = plain.unwrap();
+                    if let Some((b2, what)) = $crate::checks::inject_unknown_fields(g, &bytes, &<$Old as Derived>::desc(), &<$New as Derived>::desc()) {
+                        let mut d = $crate::minicbor::Decoder::new(&b2);
+                        let r: Result<$Old, _> = d.decode();
+                        $crate::checks::c10_same_view("new writer + unknown fields of arbitrary content -> old reader", &what, &b2, &plain, r.map(|x| (x.to_mval(), format!("{:?}", x))), d.position(), st, "unknown fields of arbitrary content")?;
+                    }
+                    let b3 = w.to_model(&mut $crate::rt::Fr::random(g)).encode();
+                    let mut d = $crate::minicbor::Decoder::new(&b3);
+                    let r: Result<$Old, _> = d.decode();
+                    $crate::checks::c10_same_view("new writer, re-framed -> old reader", "wider heads / indefinite containers", &b3, &plain, r.map(|x| (x.to_mval(), format!("{:?}", x))), d.position(), st, "re-framed writer bytes")
                 }
             }
         }
